@@ -10,7 +10,7 @@ PROPERTY = 'C01'
 LEVEL = 'exploration'
 RULE = (
     'random programs of 1-8 concurrent activities (4%: plus a crowd of 70-300 sleepers with pairwise distinct dates) built from timed waits (delay, ==, >=, <, '
-    'instant, eternity), nested Scope/until blocks with time notifications and children started '
+    'instant, eternity), nested Scope/until blocks with time notifications (date conditions also as one object shared by several waits and blocks) and children started '
     'now/after d/at t; dates from a colliding dyadic grid (a quarter of the programs: inexact decimal fractions instead) incl. zero, past, equal and infinite '
     'dates; start times {-5,0,0.5,7,1e6,2**53,1e17} (the last two make small delays vanish in float rounding); every logged resume time is compared with the '
     'arithmetic clock model and kernel clock/due-time monitors run on every activation; '
@@ -33,7 +33,8 @@ REQUIRED_STATS = ['waits_checked', 'due_checked', 'activations']
 
 GRID = [0, 0, 0.125, 0.25, 0.5, 0.5, 1, 1, 1.5, 2, 2, 3, 5]
 DATES = [-1, 0, 0, 0.5, 1, 1, 1.5, 2, 2, 2.5, 3, 4, 5, 8]
-STARTS = [0, 0, 0, -5, 0.5, 7, 1e6, 2.0 ** 53, 1e17]
+# (2 ** 53 and 2 ** 60 as *integers*: with integer delays the dates stay exact, beyond float)
+STARTS = [0, 0, 0, -5, 0.5, 7, 1e6, 2.0 ** 53, 1e17, 2 ** 53, 2 ** 60]
 # decimal fractions are inexact in binary floating point: now + (t - now) is not always t, and
 # a + b + c depends on the order - a date must still be met exactly and a delay is one addition
 DEC_GRID = [0, 0.1, 0.2, 0.3, 0.3, 0.7, 0.8, 0.9, 1.1, 1.2, 2.3, 1e16 + 2]
@@ -53,10 +54,18 @@ class TimingGen:
     def __init__(self, rng):
         self.rng = rng
         self.count = 0
+        self.shared = []
         self.decimal = rng.random() < 0.25
         self.grid = DEC_GRID if self.decimal else GRID
         self.dates = DEC_DATES if self.decimal else DATES
         self.start = rng.choice(DEC_STARTS if self.decimal else STARTS)
+        if isinstance(self.start, int) and self.start >= 2 ** 53:
+            # an exact integer clock beyond float precision only goes with integer delays and
+            # dates: `clock + 0.125` is not representable - it rounds to *less* than the clock,
+            # so "resumes at exactly clock + d" and "the clock never decreases" contradict each
+            # other for such a wait (outside the domain of the statement, see DESIGN 11.3)
+            self.grid = [0, 0, 1, 1, 2, 2, 3, 5]
+            self.dates = [-1, 0, 0, 1, 1, 2, 2, 3, 4, 5, 8]
 
     def ident(self, prefix):
         self.count += 1
@@ -71,6 +80,13 @@ class TimingGen:
         if roll < 0.45:
             delay = rng.choice(self.grid)
             return {'k': 'delay', 'd': delay} if delay > 0 else {'k': 'instant'}
+        if roll < 0.75 and rng.random() < 0.3:
+            # one date-condition *object* used by several waits and blocks of the program -
+            # some of them abandoned before the date, others waiting on
+            if len(self.shared) < 3 and (not self.shared or rng.random() < 0.4):
+                self.shared.append({'k': rng.choice(['ge', 'ge', 'eq']), 't': self.date(),
+                                    'share': 'n%d' % len(self.shared)})
+            return dict(rng.choice(self.shared))
         if roll < 0.6:
             return {'k': 'ge', 't': self.date()}
         if roll < 0.75:
@@ -115,16 +131,18 @@ class TimingGen:
         rng = self.rng
         roots = [{'name': 'r%d' % index, 'steps': self.steps(0)}
                  for index in range(rng.randint(1, 8))]
+        exact_integers = isinstance(self.start, int) and self.start >= 2 ** 53
         if rng.random() < 0.04:
             # a crowd: hundreds of distinct dates pending at the same moment, drained slowly
             order = list(range(rng.choice([70, 130, 300])))
             rng.shuffle(order)
             for index in order:
-                steps = [{'op': 'wait', 'n': {'k': 'delay', 'd': 0.125 * (index + 1)},
+                unit = 1 if exact_integers else 0.125
+                steps = [{'op': 'wait', 'n': {'k': 'delay', 'd': unit * (index + 1)},
                           'id': self.ident('w')}]
                 if index % 3 == 0:
-                    steps.append({'op': 'wait', 'n': {'k': 'ge', 't': self.start + 50 - index
-                                                      * 0.125}, 'id': self.ident('w')})
+                    steps.append({'op': 'wait', 'n': {'k': 'ge', 't': self.start + 400 - index
+                                                      * unit}, 'id': self.ident('w')})
                 roots.append({'name': 'crowd%d' % index, 'steps': steps})
         return {'objects': {}, 'roots': roots, 'start': self.start, 'till': None}
 
